@@ -57,9 +57,16 @@ def sel_drivers(tag, ty, n, host="src/lib.rs", point=False):
         ds.append(Driver("drv_%s_neg" % tag, [("a", "in", 8, n), ("out", "out", 8, n)],
                          "        let x: %s = %s;\n        *out = %s;" % (ty, tm(ty, n, "a"), back(ty, n, "-x")), host))
         # value-level comparison used only to replay a bitwise difference
-        ds.append(Driver("drv_%s_condneg_eq" % tag, [("a", "in", 8, n), ("st", "out", 4, 1)],
-                         "        let x: %s = %s; let mut y = x; y.set_condneg(0xFFFFFFFFu32);\n        st[0] = y.equals(-x);"
-                         % (ty, tm(ty, n, "a")), host))
+        # replay oracle on a VALID point (seed*B): the conditionally negated point must behave as -P
+        # in equality, addition and doubling (a representation defect such as a stale T shows in the sum)
+        sty = ty.rsplit("::", 1)[0] + "::Scalar"
+        ds.append(Driver("drv_%s_condneg_eq" % tag, [("seed", "in", 8, 1), ("st", "out", 4, 1)],
+                         "        let s = <%s>::from_u64(seed[0] | 1); let x = <%s>::mulgen(&s);\n"
+                         "        let mut y = x; y.set_condneg(0xFFFFFFFFu32);\n"
+                         "        let mut z = x; z.set_condneg(0u32);\n"
+                         "        st[0] = y.equals(-x) & (y + x).isneutral() & (y + x + x).equals(x) & (y.double() + x.double()).isneutral()"
+                         " & z.equals(x) & (z + x).equals(x.double());"
+                         % (sty, ty), host))
     return ds
 
 
@@ -185,8 +192,12 @@ def check_select(built, tag, ty, n, what, timeout):
             return (nat["out"], nat["out2"]) == ((inputs["a"], inputs["b"]) if c == 0 else (inputs["b"], inputs["a"])), det
         if c == 0:
             return nat["out"] == inputs["a"], det
-        st = built.native("drv_%s_condneg_eq" % tag, {"a": inputs["a"]})["st"][0]
-        return st == ALL1, det
+        for seed in (1, 2, 3, 0x1234567, 0xFFFFFFFFFFFFFFFF, 0x8000000000000001):
+            st = built.native("drv_%s_condneg_eq" % tag, {"seed": [seed]})["st"][0]
+            if st != ALL1:
+                det["replay"] = "set_condneg(0xFFFFFFFF) on P=%d*B does not behave as -P (equals/add/double oracle)" % (seed | 1)
+                return False, det
+        return True, det
     return [_bv_decide(ob, em, assume, diffs, built, drv, native_ok, timeout, "%s.%s" % (tag, what))]
 
 
